@@ -30,7 +30,7 @@ use std::process::{Command, Stdio};
 use vharness::*;
 
 const SYL_KEYS: [&str; 10] = ["hk4", "g4", "su3", "cl3", "ji3", "vup ", "dj4", "up ", "5j/ ", "2k7"];
-const ALL_HANDLERS: usize = 20 + 3 + 9 + 5 + 11 + 5; // named, Default/Numlock/CtrlNum, cand_*, buffer calls, setters, config/kb/selkey/user
+const ALL_HANDLERS: usize = 19 + 3 + 7 + 5 + 11 + 5; // named, Default/Numlock/CtrlNum, cand_*, buffer calls, setters, config_set_int/set_KBType/set_selKey/userphrase_add/remove
 
 struct Stats(BTreeMap<String, u64>);
 impl Stats {
